@@ -73,6 +73,10 @@ func (e *Expr) hasNot() bool {
 	return false
 }
 
+func (e *Expr) usesTraverse() bool {
+	return e.usesLeaf(LTrvAP) || e.usesLeaf(LTrvAB) || e.usesLeaf(LTrvBA)
+}
+
 func (e *Expr) usesLeaf(l int) bool {
 	if e.Op == "leaf" {
 		return e.Leaf == l
